@@ -261,6 +261,9 @@ class Simulator:
            kinds: normal (gene copy + pseudogene copy), extra (gene copy only), del (pseudogene only),
                   left:<brk> / right:<brk> (hybrids), custom:<r1,r2> (partial gene copy + pseudogene)."""
         kind, allele = comp
+        if kind in ("vars", "xvars"):          # explicit variant list [(pos1, op), ...] instead of an allele name
+            reads = self.gene_copy(list(allele), rl, depth, tag + "g")
+            return reads + (self.pseudo_copy(rl, depth, tag + "p") if kind == "vars" else [])
         var = db_variants(self.w, allele) if allele else []
         if kind == "normal":
             return self.gene_copy(var, rl, depth, tag + "g") + self.pseudo_copy(rl, depth, tag + "p")
@@ -286,6 +289,27 @@ class Simulator:
 
     def profile_reads(self, rl=100, depth=20):
         return self.sample_reads([("normal", "1.001"), ("normal", "1.001")], rl, depth)
+
+
+def pair_up(reads, span):
+    """Gives reads of one component that start within `span` bases of each other a common
+    fragment name (mate pairs): read k is paired with the first later read starting >= span/2 away."""
+    out = []
+    by = sorted(reads, key=lambda r: r[1])
+    used = set()
+    for i, r in enumerate(by):
+        if i in used:
+            continue
+        mate = None
+        for j in range(i + 1, len(by)):
+            if j not in used and by[j][0].rsplit("_", 1)[0] == r[0].rsplit("_", 1)[0] and span / 2 <= by[j][1] - r[1] <= span:
+                mate = j
+                break
+        out.append(r)
+        if mate is not None:
+            used.add(mate)
+            out.append((r[0],) + tuple(by[mate][1:]))
+    return out
 
 
 def write_bam(path, reads, chrom="7", chrlen=CHRLEN, mapq=60, qual="I", sam=False, flags=None, header_extra=None):
